@@ -191,6 +191,8 @@ class RObj:
                 return float(d[key]) if n == "getAttributeFloat" else Seq.of(float(x) for x in d[key])
             return ga
         if n not in members:
+            if "__inner" in d:  # operator-> / operator* layers: the query reaches the hidden object's members directly
+                return getattr(RObj(s, d["__inner"]), n)
             raise AttributeError(f"{cls} has no member {n}")
         m = members[n]
         k = m["k"]
@@ -198,6 +200,8 @@ class RObj:
             return conv(m["ctype"], d[n])
         if k == "num":
             return lambda: conv(m["ctype"], d[n])
+        if k == "enum":
+            return lambda: int(d[n])
         if k == "fn":
             return lambda *a: conv(m["ctype"], m["py"](d, *a))
         if k == "vec":
